@@ -29,8 +29,18 @@ MANIFEST_ENTRY = {
         "compiled driver, io.BytesIO as the file, model of seek/read as drop/take. Window explicit and inside the file."),
     "technique": "Lean 4 proof (induction over operation list, cache-coherence invariant) + model/implementation correspondence",
 }
-PROP_FILES = ["DashLive/Props/C20.lean"]
-LEAN_TARGETS = ["DashLive.Props.C20"]
+PROP_FILES = ["DashLive/Props/C20.lean", "DashLive/Props/GenTieBufReader.lean"]
+LEAN_TARGETS = ["DashLive.Props.C20", "DashLive.Props.GenTieBufReader"]
+
+
+def _gen_bufreader():
+    """Gen/BufSeek.lean (BufferedReader.seek) is translated from /repo's source text;
+    Props/GenTieBufReader.lean proves it equal to the model's seek"""
+    import gen_bufreader
+    gen_bufreader.main()
+
+
+GENERATORS = [_gen_bufreader]
 TRUSTED = [
     "io.BytesIO as the underlying file object; Python bytes/memoryview slicing",
     "model of reader.seek/read as (file.drop p).take k",
